@@ -45,10 +45,11 @@ def s_hatvee():
     return st.fixed_dictionaries({
         "kind": st.just("hatvee"),
         "n": st.sampled_from([1, 3, 6]),
-        "form": st.sampled_from(["list", "tuple", "array"] * 2 + DT_FORMS),
+        "form": st.sampled_from(["list", "tuple", "array"] * 2 + DT_FORMS + ["round:float32", "round:float32", "round:float16"]),
     }).flatmap(lambda d: st.fixed_dictionaries({
         "kind": st.just("hatvee"), "n": st.just(d["n"]), "form": st.just(d["form"]),
-        "u": small(d["n"]) if ":" in d["form"] else _vec(d["n"]), "v": small(d["n"]) if ":" in d["form"] else _vec(d["n"]),
+        "u": small(d["n"]) if ":" in d["form"] and not d["form"].startswith("round:") else _vec(d["n"]),
+        "v": small(d["n"]) if ":" in d["form"] and not d["form"].startswith("round:") else _vec(d["n"]),
         "a": st.integers(-50, 50).map(float), "b": st.integers(-50, 50).map(float),
         "zero": st.sampled_from([None, None, None, None, "rot", "trans", "all"])}))
 
@@ -116,6 +117,17 @@ def _hatvee(case):
     b = L.base
     n = case["n"]
     c = Checker("hatvee", n=n)
+    if case["form"].startswith("round:"):
+        # arbitrary real numbers held in single / half precision: the rounded vector IS the argument, and the functions
+        # must treat it like the same numbers in double precision
+        dt = np.dtype(case["form"][6:])
+        with np.errstate(all="ignore"):
+            ru, rv = np.array(case["u"], dtype=dt), np.array(case["v"], dtype=dt)
+        if not (np.all(np.isfinite(ru.astype(float))) and np.all(np.isfinite(rv.astype(float)))):
+            dt = np.dtype("float32")
+            ru, rv = np.array(case["u"], dtype=dt), np.array(case["v"], dtype=dt)
+        case = dict(case, u=[float(x) for x in ru], v=[float(x) for x in rv], form="array:" + dt.name)
+        c.feat(rounded=dt.name)
     z = case.get("zero")
     if z:
         # exactly zero rotational / translational part or the zero element: valid members of the algebra like any other
